@@ -584,8 +584,17 @@ double CPyTagged_TrueDivide(CPyTagged x, CPyTagged y) {
         return CPY_FLOAT_ERROR;
     }
     if (likely(!CPyTagged_CheckLong(x) && !CPyTagged_CheckLong(y))) {
-        return (double)((Py_ssize_t)x >> 1) / (double)((Py_ssize_t)y >> 1);
-    } else {
+        long long xs = (Py_ssize_t)x >> 1;
+        long long ys = (Py_ssize_t)y >> 1;
+        // The quotient of two doubles is correctly rounded only if both
+        // operands convert to double exactly (CPython's int / int is
+        // correctly rounded for all operands).
+        if (likely(xs >= -(1LL << 53) && xs <= (1LL << 53)
+                   && ys >= -(1LL << 53) && ys <= (1LL << 53))) {
+            return (double)xs / (double)ys;
+        }
+    }
+    {
         PyObject *xo = CPyTagged_AsObject(x);
         PyObject *yo = CPyTagged_AsObject(y);
         PyObject *result = PyNumber_TrueDivide(xo, yo);
